@@ -58,6 +58,7 @@ pub fn run_history<W: Write>(
     id: &str,
     seed: u64,
     prof: &Profile,
+    failures: &mut Vec<String>,
 ) {
     let mut g = Gen::new(seed, prof.clone());
     let version = if g.rng.below(10) < 7 { Version::V3 } else { Version::V4 };
@@ -116,7 +117,24 @@ pub fn run_history<W: Write>(
                 }
             }
         }
+        // C02's own oracle, applied to the implementation alone: whenever the unflushed bytes
+        // are reopened while no handle holds data, the reopened object must show exactly what
+        // the live one showed
+        let reopen_check = matches!(op, Op::Reopen(_)) && live.handles.iter().all(|h| h.is_none()) && !live.dead;
+        let before = if reopen_check { std::panic::catch_unwind(std::panic::AssertUnwindSafe(|| live.dump())).ok() } else { None };
         let res = tr.exec(&mut live, &op);
+        if reopen_check {
+            if res != "ok" {
+                failures.push(format!("lockstep {} history {} step {}: the bytes left by the previous calls do not reopen ({}): {}", prof.name, id, tr.step, op.encode(), res));
+            } else if let Some(b) = before {
+                let after = std::panic::catch_unwind(std::panic::AssertUnwindSafe(|| live.dump())).ok();
+                if after.as_ref() != Some(&b) {
+                    let a = after.unwrap_or_default();
+                    let d = a.split(';').zip(b.split(';')).find(|(x, y)| x != y).map(|(x, y)| format!("reopened [{}] live [{}]", x.chars().take(120).collect::<String>(), y.chars().take(120).collect::<String>())).unwrap_or_else(|| format!("{} vs {} entries", a.split(';').count(), b.split(';').count()));
+                    failures.push(format!("lockstep {} history {} step {}: the reopened file ({}) shows different content than the live object: {}", prof.name, id, tr.step, op.encode(), d));
+                }
+            }
+        }
         if prof.tree {
             // whole-stream write: create, write everything sequentially, drop
             if let Op::CreateStream(h, _) | Op::CreateNewStream(h, _) = &op {
@@ -179,28 +197,46 @@ pub fn run_history<W: Write>(
         for p in streams.iter() {
             tr.exec(&mut live, &Op::Cat(p.clone()));
         }
-        tr.exec(&mut live, &Op::Reopen(true));
-        tr.exec(&mut live, &Op::Walk);
-        for p in streams.iter().take(3) {
-            tr.exec(&mut live, &Op::Cat(p.clone()));
+        // closing cross-check, also as an oracle on the implementation alone (C02)
+        let before = std::panic::catch_unwind(std::panic::AssertUnwindSafe(|| live.dump())).ok();
+        for strict in [true, false] {
+            let r = tr.exec(&mut live, &Op::Reopen(strict));
+            if live.dead {
+                break;
+            }
+            let mode = if strict { "strict" } else { "permissive" };
+            if r != "ok" {
+                failures.push(format!("lockstep {} history {} (end): the bytes do not reopen in {} mode: {}", prof.name, id, mode, r));
+                break;
+            }
+            let after = std::panic::catch_unwind(std::panic::AssertUnwindSafe(|| live.dump())).ok();
+            if after != before {
+                failures.push(format!("lockstep {} history {} (end): reopened in {} mode the file shows different content than the live object", prof.name, id, mode));
+            }
+            if strict {
+                tr.exec(&mut live, &Op::Walk);
+                for p in streams.iter().take(3) {
+                    tr.exec(&mut live, &Op::Cat(p.clone()));
+                }
+            }
         }
-        tr.exec(&mut live, &Op::Reopen(false));
     }
     writeln!(tr.out, "E").unwrap();
     let _ = enc_path("");
 }
 
-pub fn run(prof: Profile, seed: u64, count: usize, out: &str) -> usize {
+pub fn run(prof: Profile, seed: u64, count: usize, out: &str) -> (usize, Vec<String>) {
     let f = File::create(out).unwrap();
     let mut tr = Tracer { out: BufWriter::new(f), last_img: Vec::new(), step: 0, with_images: true };
     let mut master = Rng::new(seed);
+    let mut failures = Vec::new();
     for i in 0..count {
         let hs = master.next();
         let id = format!("{}-{}-{}", prof.name, seed, i);
-        run_history(&mut tr, &id, hs, &prof);
+        run_history(&mut tr, &id, hs, &prof, &mut failures);
     }
     tr.out.flush().unwrap();
-    count
+    (count, failures)
 }
 
 /// Systematic sweep of (initial size, new size) pairs over the boundary set, both
